@@ -129,10 +129,12 @@ theorem counterexample_missing_arg :
 
 /-- **C06_no_walk_panic (the two panic sites)** — the ORIGINAL hypotheses: for every legal oracle the call
 never panics with "didn't reach a final value for path" nor in `reflect.Value.Set`.
-(`setNotAssignable` does not depend on the oracle being legal; `finalValue` does: the path
-`…, value n t s, value n t "", arg t ""` is real, and walking it leaves the argument vertex empty — a
-shortest path takes the direct edge `value n t s → arg t ""` instead; `WalkPanicCE.finalValue_needs_legal` is a
-scenario without any converter in which that real but non-shortest path makes the call panic.) -/
+(`setNotAssignable` does not depend on the oracle being legal; `finalValue` did before the repair of finding F22
+(`hopCopies := false`): the path `…, value n t s, value n t "", arg t ""` is real, and walking it left the argument
+vertex empty — a shortest path takes the direct edge `value n t s → arg t ""` instead;
+`WalkPanicCE.finalValue_needs_legal` is a scenario without any converter in which, in the pre-repair context, that
+real but non-shortest path makes the call panic; with the repaired hop (`hopCopies := true`, the default used here)
+the same scenario succeeds, `WalkPanicCE.finalValue_illegal_ok_after_repair`.) -/
 theorem no_walk_panic_partial_final_set (e : TypeEnv) (ht : ImplTrans e)
     (b : Builder) (funcs : Nat → Option FuncDesc) (target : FuncDesc)
     (hb : C03.BuilderOK b)
